@@ -252,11 +252,19 @@ def declarations(thorough):
             if not thorough and name != 'foo' and kw.get('action') not in ('enable', 'with', None):
                 continue
             decls.append((name, kw))
+    # an argument declared with several names: every name has both spellings
+    for kw in ({}, {'type': 'int'}, {'action': 'append'}, {'action': 'enable'}, {'action': 'with', 'default': True},
+               {'action': 'store_true'}):
+        decls.append((('foo', 'alt'), kw))
+        if thorough:
+            decls.append((('foo', 'alt-name', 'third'), kw))
     return decls
 
 
 def occurrences(name, kw):
     """ways one occurrence of the option can be written: [(plain, xspelling)]"""
+    if isinstance(name, tuple):
+        return [o for n in name for o in occurrences(n, kw)]
     act = kw.get('action')
     vals = ['1', '2'] if kw.get('type') == 'int' else (['a', 'b'] if 'choices' in kw else ['v1', 'v 2'])
     if act in ('enable', 'with'):
@@ -273,7 +281,7 @@ def occurrences(name, kw):
 
 
 def decl_src(name, kw):
-    args = [repr(name)]
+    args = [repr(n) for n in name] if isinstance(name, tuple) else [repr(name)]
     for k, v in kw.items():
         args.append('%s=%s' % (k, 'int' if (k == 'type' and v == 'int') else repr(v)))
     return 'argument(%s)\n' % ', '.join(args)
